@@ -154,7 +154,8 @@ def run(ctx):
         if rng.random() < 0.4:
             # a form that is rejected when it is parsed (it lexes, so the completeness test is not concerned)
             k = rng.randrange(len(texts_) + 1)
-            texts_ = texts_[:k] + [rng.choice(["(if)", "(lambda)", "(let ((y)) y)", "(define)", "(quote)", "(if 1 2 3 4)"])] + texts_[k:]
+            # (a closing parenthesis too many closes nothing: the submission fails, and the next form starts from depth zero)
+            texts_ = texts_[:k] + [rng.choice(["(if)", "(lambda)", "(let ((y)) y)", "(define)", "(quote)", "(if 1 2 3 4)", ")", "(+ 1 2))", "(list 1 (+ 1 1)) )", "))"])] + texts_[k:]
         # the trace specification re-lexes the pending text at every line: keep sessions small
         texts_ = [t for t in texts_ if len(t) <= 160][:6]
         if "tick!" in " ".join(texts_) or not texts_:
